@@ -96,7 +96,9 @@ type c16Case struct {
 	ct       string
 	lvl      int
 	reqs     []c16Req
-	limitRel string // how the limit was chosen (stat only)
+	limitRel string    // how the limit was chosen (stat only)
+	custom   []string  // header names registered with WithDecoder (the harness's xor decoder)
+	then     []c16Case // further servers built AFTER this one in the same process (same case), each with its own requests
 }
 
 var c16Types = []string{"gzip", "zlib", "deflate", "snappy", "zstd", "lz4", "none", ""}
@@ -132,6 +134,13 @@ func c16Compress(lib string, lvl int, b []byte) []byte {
 			_ = lw.Apply(lz4.BlockSizeOption(lz4.Block64Kb), lz4.ChecksumOption(lvl%2 == 0))
 		}
 		w = lw
+	case "xor":
+		// the harness's own "compression", decoded by the WithDecoder decoder c16XorDecoder
+		out := make([]byte, len(b))
+		for i, c := range b {
+			out[i] = c ^ 0x5a
+		}
+		return out
 	default:
 		panic("c16Compress: " + lib)
 	}
@@ -139,6 +148,20 @@ func c16Compress(lib string, lvl int, b []byte) []byte {
 	_ = w.Close()
 	return buf.Bytes()
 }
+
+type c16XorReader struct{ r io.ReadCloser }
+
+func (x c16XorReader) Read(p []byte) (int, error) {
+	n, err := x.r.Read(p)
+	for i := 0; i < n; i++ {
+		p[i] ^= 0x5a
+	}
+	return n, err
+}
+func (x c16XorReader) Close() error { return x.r.Close() }
+
+// c16XorDecoder is what the harness registers with WithDecoder
+func c16XorDecoder(body io.ReadCloser) (io.ReadCloser, error) { return c16XorReader{body}, nil }
 
 func c16PreLevel(rnd interface{ IntN(int) int }, lib string) int {
 	switch lib {
@@ -234,6 +257,30 @@ func c16Corpus() []c16Case {
 				{mode: "client", body: c16Body{kind: 't', n: 300_000}},
 			}})
 		}
+	}
+	// WithDecoder: server A overrides a built-in and restricts its list; server B (default) is built afterwards in the
+	// same process. A must still reject what it did not list; B must be unaffected by A's registration.
+	for _, over := range []string{"snappy", "gzip", "zstd"} {
+		lib := c16LibOf(over)
+		other := map[string]string{"snappy": "zstd", "gzip": "lz4", "zstd": "zlib"}[over]
+		cs = append(cs, c16Case{algos: []string{"", "gzip"}, max: 100000, ct: "none", custom: []string{over, "x-xor"}, reqs: []c16Req{
+			{mode: "pre", hdr: over, lib: "xor", body: c16Body{kind: 't', n: 700}},
+			{mode: "pre", hdr: "x-xor", lib: "xor", body: c16Body{kind: 'r', n: 300, seed: 5}},
+			{mode: "pre", hdr: other, lib: c16LibOf(other), lvl: 1, body: c16Body{kind: 't', n: 500}},
+			{mode: "pre", hdr: "deflate", lib: "zlib", lvl: -1, body: c16Body{kind: 't', n: 500}},
+			{mode: "client", body: x("plain")},
+		}, then: []c16Case{
+			{algosNil: true, max: 100000, ct: over, reqs: []c16Req{
+				{mode: "client", body: c16Body{kind: 't', n: 900}},
+				{mode: "pre", hdr: over, lib: lib, lvl: 1, body: c16Body{kind: 'r', n: 400, seed: 9}},
+				{mode: "pre", hdr: other, lib: c16LibOf(other), lvl: 1, body: c16Body{kind: 't', n: 500}},
+				{mode: "pre", hdr: "x-xor", lib: "xor", body: x("not registered here")},
+			}},
+			{algos: []string{"", "gzip"}, max: 100000, ct: "gzip", reqs: []c16Req{
+				{mode: "client", body: c16Body{kind: 't', n: 900}},
+				{mode: "pre", hdr: other, lib: c16LibOf(other), lvl: 1, body: c16Body{kind: 't', n: 500}},
+			}},
+		}})
 	}
 	return cs
 }
@@ -424,6 +471,31 @@ func c16AlgosToken(cs c16Case) string {
 
 func c16Run(t *testing.T, out *vOut, c int, cs c16Case) {
 	out.Linef("case %d", c)
+	nt := c16Stage(t, out, cs)
+	for _, next := range cs.then {
+		c16Stage(t, out, next)
+		nt = true // several servers in one process
+	}
+	if nt {
+		out.Linef("nt")
+	}
+	out.Linef("end")
+}
+
+func c16CustomToken(cs c16Case) string {
+	if len(cs.custom) == 0 {
+		return "-"
+	}
+	var parts []string
+	for _, a := range cs.custom {
+		parts = append(parts, vHex(a))
+	}
+	return strings.Join(parts, ",")
+}
+
+// c16Stage builds one server (+ client) and runs its requests; servers of earlier stages of the case were built
+// before in the same process. Returns whether the stage was non-trivial.
+func c16Stage(t *testing.T, out *vOut, cs c16Case) bool {
 	seen := &c16Seen{}
 	base := http.HandlerFunc(func(w http.ResponseWriter, r *http.Request) {
 		data, err := io.ReadAll(r.Body)
@@ -436,7 +508,11 @@ func c16Run(t *testing.T, out *vOut, c int, cs c16Case) {
 	if !cs.algosNil {
 		hss.CompressionAlgorithms = cs.algos
 	}
-	srv, err := hss.ToServer(context.Background(), componenttest.NewNopHost(), componenttest.NewNopTelemetrySettings(), base)
+	var opts []ToServerOption
+	for _, name := range cs.custom {
+		opts = append(opts, WithDecoder(name, c16XorDecoder))
+	}
+	srv, err := hss.ToServer(context.Background(), componenttest.NewNopHost(), componenttest.NewNopTelemetrySettings(), base, opts...)
 	if err != nil {
 		t.Fatalf("ToServer: %v", err)
 	}
@@ -460,15 +536,14 @@ func c16Run(t *testing.T, out *vOut, c int, cs c16Case) {
 	defer ts.Close()
 
 	hcs := &ClientConfig{Endpoint: ts.URL, Compression: configcompression.Type(cs.ct), CompressionParams: newCompressionParams(configcompression.Level(cs.lvl))}
-	out.Linef("op cfg algos=%s max=%d ct=%s lvl=%d", c16AlgosToken(cs), cs.max, vHex(cs.ct), cs.lvl)
+	out.Linef("op cfg algos=%s max=%d ct=%s lvl=%d custom=%s", c16AlgosToken(cs), cs.max, vHex(cs.ct), cs.lvl, c16CustomToken(cs))
 	if err := hcs.Validate(); err != nil {
 		t.Fatalf("generator produced invalid client params: %v", err)
 	}
 	client, err := hcs.ToClient(context.Background(), componenttest.NewNopHost(), componenttest.NewNopTelemetrySettings())
 	if err != nil {
 		out.Linef("obs cfg client=err")
-		out.Linef("end")
-		return
+		return false
 	}
 	defer client.CloseIdleConnections()
 	out.Linef("obs cfg client=ok")
@@ -576,10 +651,10 @@ func c16Run(t *testing.T, out *vOut, c int, cs c16Case) {
 	if cs.limitRel != "" {
 		out.Linef("stat limit_%s 1", strings.NewReplacer("±", "_pm").Replace(cs.limitRel))
 	}
-	if nt {
-		out.Linef("nt")
+	if len(cs.custom) > 0 {
+		out.Linef("stat with_decoder 1")
 	}
-	out.Linef("end")
+	return nt
 }
 
 // thorough only: every subset of the decoder names × every client type, and the 1 MiB block boundary
@@ -612,6 +687,83 @@ func c16Exhaustive() []c16Case {
 	return cs
 }
 
+// c16WithDecoderCase: server A registers the xor decoder under 1-2 names (a new name and/or a built-in it overrides)
+// with a restricted list; then server B (default or random) is built in the same process. Requests probe, on A: the
+// custom names (xor streams), every built-in that A did not list (must be rejected), listed ones; on B: every
+// client type incl. the names A overrode (must round-trip through the REAL decoder), and A's private name (rejected).
+func c16WithDecoderCase(rnd interface {
+	IntN(int) int
+	Uint64() uint64
+}) c16Case {
+	builtins := []string{"gzip", "zstd", "zlib", "snappy", "deflate", "lz4"}
+	over := builtins[rnd.IntN(len(builtins))]
+	var custom []string
+	switch rnd.IntN(3) {
+	case 0:
+		custom = []string{over}
+	case 1:
+		custom = []string{"x-xor"}
+	default:
+		custom = []string{"x-xor", over}
+	}
+	algos := []string{""}
+	for _, b := range builtins {
+		if rnd.IntN(3) == 0 {
+			algos = append(algos, b)
+		}
+	}
+	body := func() c16Body {
+		n := 1 + rnd.IntN(600)
+		if rnd.IntN(2) == 0 {
+			return c16Body{kind: 't', n: n}
+		}
+		return c16Body{kind: 'r', n: n, seed: rnd.Uint64() % 1000003}
+	}
+	a := c16Case{algos: algos, max: 100000, ct: "none", custom: custom}
+	for _, name := range custom {
+		a.reqs = append(a.reqs, c16Req{mode: "pre", hdr: name, lib: "xor", body: body()})
+	}
+	for _, b := range builtins {
+		if rnd.IntN(2) == 0 {
+			lib := c16LibOf(b)
+			isCustom := false
+			for _, cn := range custom {
+				isCustom = isCustom || cn == b
+			}
+			if isCustom {
+				continue
+			}
+			a.reqs = append(a.reqs, c16Req{mode: "pre", hdr: b, lib: lib, lvl: c16PreLevel(rnd, lib), body: body()})
+		}
+	}
+	a.reqs = append(a.reqs, c16Req{mode: "client", body: body()})
+	// B: built afterwards; compresses with the overridden name (or a random type)
+	ct := over
+	if rnd.IntN(3) == 0 {
+		ct = builtins[rnd.IntN(len(builtins))]
+	}
+	b := c16Case{algosNil: rnd.IntN(3) > 0, max: 100000, ct: ct, lvl: 0}
+	if !b.algosNil {
+		b.algos = []string{"", ct, over}
+	}
+	b.reqs = []c16Req{
+		{mode: "client", body: body()},
+		{mode: "pre", hdr: over, lib: c16LibOf(over), lvl: c16PreLevel(rnd, c16LibOf(over)), body: body()},
+		{mode: "pre", hdr: "x-xor", lib: "xor", body: body()},
+	}
+	a.then = []c16Case{b}
+	if rnd.IntN(3) == 0 {
+		// and a third server that registers nothing but restricts its list
+		c := c16Case{algos: []string{"", "gzip"}, max: 100000, ct: "gzip"}
+		c.reqs = []c16Req{
+			{mode: "client", body: body()},
+			{mode: "pre", hdr: over, lib: c16LibOf(over), lvl: c16PreLevel(rnd, c16LibOf(over)), body: body()},
+		}
+		a.then = append(a.then, c)
+	}
+	return a
+}
+
 func TestVerifC16(t *testing.T) {
 	out := vOpen(t)
 	defer out.Close()
@@ -627,7 +779,11 @@ func TestVerifC16(t *testing.T) {
 		if c < len(corpus) {
 			cs = corpus[c]
 		} else {
-			cs = c16Gen(c, rnd, vThorough())
+			if rnd.IntN(8) == 0 {
+				cs = c16WithDecoderCase(rnd)
+			} else {
+				cs = c16Gen(c, rnd, vThorough())
+			}
 		}
 		c16Run(t, out, c, cs)
 		out.Flush()
